@@ -150,21 +150,25 @@ Proof. exact cx_quiescent. Qed.
 
 (* ---- file store (names, duplicate-name, fallback CAS; options IgnoreNoName, DisableOverwrite) ---- *)
 
-(* whatever the history and the options, a Fetch never returns bytes whose hash is not
-   the requested digest (digestToPath -> file indirection included) *)
-Theorem C06_fetch_matches_digest_file : forall ig ov h d hash len,
+(* whatever the options, in a history whose pushes do not use two names for one path
+   ([no_alias]), a Fetch never returns bytes whose hash is not the requested digest
+   (digestToPath -> file indirection included).  Partial: without [no_alias] the
+   statement is refuted below (known finding file-name-alias-overwrite). *)
+Theorem C06_fetch_matches_digest_file_partial : forall ig ov h d hash len,
+  Forall no_alias h ->
   let s := fst (runf (file_step true ig ov) file_init h) in
   snd (file_step true ig ov s (Fetch d)) = FO (OBytes hash len) -> hash = d_dig d.
 Proof. exact file_fetch_matches. Qed.
-Print Assumptions C06_fetch_matches_digest_file.
+Print Assumptions C06_fetch_matches_digest_file_partial.
 
 (* repaired code: a refused or failed operation leaves the whole state (names,
    digestToPath, files, fallback, tags, graph) unchanged, after any history *)
-Theorem C06_failed_noop_file : forall ig ov h o,
+Theorem C06_failed_noop_file_partial : forall ig ov h o,
+  Forall no_alias h -> no_alias o ->
   let s := fst (runf (file_step true ig ov) file_init h) in
   fout_is_err (snd (file_step true ig ov s o)) = true -> fst (file_step true ig ov s o) = s.
 Proof. exact file_failed_noop. Qed.
-Print Assumptions C06_failed_noop_file.
+Print Assumptions C06_failed_noop_file_partial.
 
 (* code as found (fixed = false): refuted -- the witness is the finding failed-push-left-file *)
 Theorem C06_failed_noop_file_prefix_refuted :
@@ -197,6 +201,13 @@ Theorem C06_fetch_returns_pushed_file_refuted :
 Proof. exact file_trailing_witness. Qed.
 Print Assumptions C06_fetch_returns_pushed_file_refuted.
 
+Theorem C06_fetch_matches_digest_file_alias_refuted :
+  snd (runf (file_step true false false) file_init
+            [Push w_named w_good; Push w_alias (mkBlob 2 5 [] 2 []); Fetch w_named])
+    = [FO OOk; FO OOk; FO (OBytes 2 5)] /\ d_dig w_named = 1.
+Proof. exact file_alias_witness. Qed.
+Print Assumptions C06_fetch_matches_digest_file_alias_refuted.
+
 (* ---- tie to the source ---- *)
 (* the media types descriptor.IsManifest accepts are exactly those content.Successors
    decodes, and there are five of them (the model's media type ids 1..5) *)
@@ -206,27 +217,15 @@ Theorem C06_manifest_types_from_source :
 Proof. exact manifest_types_from_source. Qed.
 Print Assumptions C06_manifest_types_from_source.
 
-(* ---- the hypotheses are satisfiable: a concrete universe and history ---- *)
-Definition ex_U (g : N) : gkey :=
-  if g =? 1 then (1, 1, 10) else if g =? 2 then (6, 2, 5) else (0, g, 0).
-Definition ex_man := mkDesc 1 1 10 0.
-Definition ex_layer := mkDesc 6 2 5 0.
-Definition ex_hist : list op :=
-  [ Push ex_man (mkBlob 1 10 [(6, 2, 5)] 1 [(6, 2, 5)]); Push ex_layer (mkBlob 2 5 [] 2 []);
-    Push ex_layer (mkBlob 2 5 [] 2 []); Tag ex_man (RName 1); Resolve (RName 1); Resolve (RDig 2);
-    Preds ex_layer; Delete ex_man; Resolve (RName 1); Preds ex_layer; Delete ex_man ].
-
+(* ---- the hypotheses are satisfiable: a concrete universe and history (Proofs/Stores.v) ---- *)
 Example C06_ex_U_dig : forall g, k_dig (ex_U g) = g.
-Proof.
-  intro g. unfold ex_U. destruct (g =? 1) eqn:E1; [apply N.eqb_eq in E1; now subst|].
-  destruct (g =? 2) eqn:E2; [apply N.eqb_eq in E2; now subst|]. reflexivity.
-Qed.
+Proof. exact ex_U_dig. Qed.
 
 Example C06_ex_canon : Forall (canon_op ex_U) ex_hist.
-Proof. repeat constructor. Qed.
+Proof. exact ex_canon. Qed.
 
 Example C06_ex_run :
   snd (run oci_step oci_init ex_hist) =
   [ OOk; OOk; OErr EAlreadyExists; OOk; ODesc ex_man; ODesc (mkDesc 0 2 5 0);
     OPreds [(1, 1, 10)]; OOk; OErr ENotFound; OPreds []; OErr ENotFound ].
-Proof. vm_compute. reflexivity. Qed.
+Proof. exact ex_run. Qed.
